@@ -233,9 +233,11 @@ func (rr *runRec) hook(pi int, bar *mpb.Bar, a, b int) {
 			rr.pty.cut()
 		}
 	}
-	rr.mu.Lock()
-	rr.hooks = append(rr.hooks, HookRec{T: t, P: pi, Bar: bi, A: a, B: b})
-	rr.mu.Unlock()
+	if pi != hpBarOp { // one per operation served by a bar: counted and used as a delay point, not logged
+		rr.mu.Lock()
+		rr.hooks = append(rr.hooks, HookRec{T: t, P: pi, Bar: bi, A: a, B: b})
+		rr.mu.Unlock()
+	}
 
 	sc := rr.sc
 	// trigger
@@ -258,6 +260,9 @@ func (rr *runRec) hook(pi int, bar *mpb.Bar, a, b int) {
 	switch {
 	case sc.Policy == "targeted" && hookPoints[pi] == sc.Target:
 		sleep = time.Duration(20+h%2000) * time.Microsecond
+		if pi == hpBarOp {
+			sleep = time.Duration(10+h%200) * time.Microsecond // fires once per client operation
+		}
 	case sc.Policy == "heavy":
 		switch x := h % 100; {
 		case x < 30:
